@@ -199,6 +199,18 @@ func checkC06(c *Ctx) {
 			if nChk > 1 {
 				return
 			}
+			// inside the check function the read itself depends on nothing but the claim
+			eachInstr(g, func(x ssa.Instruction) {
+				if get, ok := m.isKVCall(valueOf(x), "Get"); ok {
+					var foreign []string
+					for _, l := range m.GuardsAt(get) {
+						if !m.isClaimLoadSym(l.S) {
+							foreign = append(foreign, l.String())
+						}
+					}
+					c.check(len(foreign) == 0, "R2", "periodic check reads the key unconditionally in "+shortFn(g), get, "conditions other than 'not leader' before the read: %v (a vacancy is then noticed only when they hold)", foreign)
+				}
+			})
 			// error edge and empty-value edge reach an acquisition round
 			eachInstr(g, func(x ssa.Instruction) {
 				ifi, ok := x.(*ssa.If)
